@@ -544,14 +544,13 @@ var SignumFunc = function.New(&function.Spec{
 	Type:         function.StaticReturnType(cty.Number),
 	RefineResult: refineNonNull,
 	Impl: func(args []cty.Value, retType cty.Type) (ret cty.Value, err error) {
-		var num int
-		if err := gocty.FromCtyValue(args[0], &num); err != nil {
-			return cty.UnknownVal(cty.String), err
-		}
-		switch {
-		case num < 0:
+		// The sign is read from the number itself rather than from a
+		// conversion to int, which would reject fractions and anything
+		// beyond the int64 range although their sign is perfectly clear.
+		switch sign := args[0].AsBigFloat().Sign(); {
+		case sign < 0:
 			return cty.NumberIntVal(-1), nil
-		case num > 0:
+		case sign > 0:
 			return cty.NumberIntVal(+1), nil
 		default:
 			return cty.NumberIntVal(0), nil
